@@ -249,6 +249,10 @@ Proof.
   - destruct (find_live _ (queue s)) as [x|]; [left; exists x; reflexivity|right; reflexivity].
 Qed.
 
+Lemma do_query_cases {W} p t e k (s : st W) :
+  do_action p t e (AQuery k) s = s \/ exists i r, do_action p t e (AQuery k) s = emit (OQuery i r) s.
+Proof. cbn [do_action]. destruct (ids s); [left; reflexivity|right; eexists; eexists; reflexivity]. Qed.
+
 Section Mon.
 Context {W : Type}.
 Implicit Types s : st W.
@@ -308,7 +312,7 @@ Proof.
     split; [exact Hi|].
     intros y Hy Hp. apply kill_in in Hy. destruct Hy as [[Hy _]|[z [Hz [Hzi ->]]]]; [auto|].
     exfalso. cbn in Hp. destruct (Hk z Hz Hp) as [_ B]. apply B. rewrite Hzi. exact Hin.
-  - cbn [do_action]. destruct (ids s); cbn; split; assumption.
+  - destruct (do_query_cases p t e k s) as [E|[i [r E]]]; rewrite E; cbn; split; assumption.
   - cbn. split; assumption.
   - cbn. split; assumption.
   - cbn. split; assumption.
@@ -326,7 +330,7 @@ Proof.
   - cbn [do_action]. unfold post. destruct (Qltb _ _); cbn; auto.
   - destruct (do_unpost_cases p t e k fatal s) as [E|[i [Hin [[x E]|E]]]]; rewrite E; cbn; [exact Hy| |exact Hy].
     apply kill_keeps; [exact Hy|]. intros E2. apply (proj2 (Hk y Hy Hp)). rewrite E2. exact Hin.
-  - cbn [do_action]. destruct (ids s); exact Hy.
+  - destruct (do_query_cases p t e k s) as [E|[i [r E]]]; rewrite E; exact Hy.
 Qed.
 
 Lemma MI_run_actions p t e acts s : Forall (nopush kobs) acts -> MI s ->
@@ -490,3 +494,469 @@ Proof.
 Qed.
 
 End Mon.
+
+(* ------------------------------------------------------------------ set-up and whole runs *)
+Section MonRuns.
+Context {W : Type}.
+Implicit Types s : st W.
+Variable tb : table W.
+Variable delta : Q.
+Variable kobs : nat.
+Hypothesis Hmt : monitor_tb tb delta kobs.
+
+Definition setup_step (acc : st W * nat) (p : proc) : st W * nat :=
+  (run_actions (snd acc) 0 (EN 0) (p_setup p) (fst acc), S (snd acc)).
+
+Lemma setup_fold_MI (ps : list proc) : Forall (fun p => Forall (nopush kobs) (p_setup p)) ps ->
+  forall acc, MI kobs (fst acc) ->
+  MI kobs (fst (fold_left setup_step ps acc)) /\
+  (forall y, e_prog y = kobs -> In y (queue (fst acc)) -> In y (queue (fst (fold_left setup_step ps acc)))) /\
+  clock (fst (fold_left setup_step ps acc)) = clock (fst acc).
+Proof.
+  induction 1 as [|p ps Hp _ IH]; intros acc HM; cbn [fold_left]; [auto|].
+  destruct (MI_run_actions kobs (snd acc) 0 (EN 0) (p_setup p) (fst acc) Hp HM) as [A B].
+  destruct (IH (setup_step acc p) A) as [C [D E]]. split; [exact C|split].
+  - intros y Hy Hin. apply D; [exact Hy|]. apply B; assumption.
+  - rewrite E. unfold setup_step. cbn [fst].
+    exact (core_clock _ _ (run_actions_umoves (snd acc) 0 (EN 0) (p_setup p) (fst acc))).
+Qed.
+
+Lemma MI_init rs ls ds : MI kobs (init_state tb rs ls ds).
+Proof. split; [split; constructor|split; [intros ? []|intros ? []]]. Qed.
+
+Lemma PM_setup rs ls ds : PM delta kobs (setup_state tb rs ls ds) [].
+Proof.
+  destruct (mt_procs _ _ _ Hmt) as [pre [mp [pst [Ep [Es Hf]]]]].
+  apply Forall_app in Hf. destruct Hf as [Hpre Hpst].
+  unfold setup_state. fold (init_state tb rs ls ds). change (fun (acc : st W * nat) p => _) with setup_step.
+  rewrite Ep, fold_left_app. cbn [fold_left].
+  destruct (setup_fold_MI pre Hpre (init_state tb rs ls ds, 0%nat) (MI_init rs ls ds)) as [A [_ Ec]].
+  set (a1 := fold_left setup_step pre (init_state tb rs ls ds, 0%nat)) in *. cbn [fst] in Ec.
+  assert (A2 : MI kobs (fst (setup_step a1 mp))).
+  { unfold setup_step. cbn [fst]. rewrite Es. unfold run_actions. cbn [fold_left].
+    apply MI_do_action; [exact I|exact A]. }
+  set (m0 := mk_entry 0 (nextid (fst a1)) (snd a1) (EN 0) kobs (Some delta)).
+  assert (Hm0 : In m0 (queue (fst (setup_step a1 mp)))).
+  { unfold setup_step. cbn [fst]. rewrite Es. unfold run_actions. cbn [fold_left do_action]. unfold post.
+    rewrite Ec. cbn. left. reflexivity. }
+  destruct (setup_fold_MI pst Hpst (setup_step a1 mp) A2) as [B [K _]].
+  split; [exact B| |intros ? []|intros ? []].
+  exists m0. split; [reflexivity|split; [reflexivity|split; [reflexivity|]]]. left. apply K; [reflexivity|exact Hm0].
+Qed.
+
+Lemma PM_stoch_run pf fuel rs ls ds :
+  PM delta kobs (r_final (stoch_run tb pf fuel rs ls ds)) (stoch_fired tb pf fuel rs ls ds).
+Proof.
+  rewrite stoch_run_eq. unfold stoch_fired. destruct (stoch_runL tb pf fuel rs ls ds) as [[[t ev] s] l] eqn:E. cbn.
+  refine (lift_stoch_loopL tb (PM delta kobs) _ _ _ _ _ _ pf fuel 0 0 _ [] t ev s l (PM_setup rs ls ds) E).
+  - intros s0 lg. apply PM_same; reflexivity.
+  - intros s0 s1 lg. apply PM_osame.
+  - intros s0 lg. apply PM_discard.
+  - intros c s0 lg. apply PM_same; reflexivity.
+  - intros h s0 lg. apply PM_pend_step. exact Hmt.
+  - intros x t0 e s0 lg. apply PM_fire_event. exact Hmt.
+Qed.
+
+Lemma PM_sync_run pf fuel rs ds :
+  PM delta kobs (r_final (sync_run tb pf fuel rs ds)) (sync_fired tb pf fuel rs ds).
+Proof.
+  rewrite sync_run_eq. unfold sync_fired. destruct (sync_runL tb pf fuel rs ds) as [[[[t ev] k] s] l] eqn:E. cbn.
+  refine (lift_sync_loopL tb (PM delta kobs) _ _ _ _ _ _ pf fuel 1 0 0 _ [] t ev k s l (PM_setup rs [] ds) E).
+  - intros s0 lg. apply PM_same; reflexivity.
+  - intros s0 s1 lg. apply PM_osame.
+  - intros s0 lg. apply PM_discard.
+  - intros c s0 lg. apply PM_same; reflexivity.
+  - intros h s0 lg. apply PM_pend_step. exact Hmt.
+  - intros x t0 e s0 lg. apply PM_fire_event. exact Hmt.
+Qed.
+
+(* the chain 0, delta, 2 delta, ...: whatever is due strictly before a bound that no live entry
+   precedes has fired and left its three records *)
+Lemma PM_chain s lg B : PM delta kobs s lg ->
+  (forall x, In x (queue s) -> e_live x = true -> B <= e_time x) ->
+  forall k : nat, inject_Z (Z.of_nat k) * delta < B ->
+  exists y, In y lg /\ e_time y == inject_Z (Z.of_nat k) * delta /\ e_prog y = kobs /\ e_rep y = Some delta.
+Proof.
+  intros [A [m0 [M1 [M2 [M3 M4]]]] C D] HB. destruct A as [_ [_ Hk]].
+  induction k as [|k IH]; intros Hlt.
+  - exists m0. rewrite inj_nat_0 in *. split; [|split; [rewrite M1; lra|auto]].
+    destruct M4 as [H|H]; [|exact H]. exfalso.
+    pose proof (HB m0 H (proj1 (Hk m0 H M2))) as Hle. rewrite M1 in Hle. lra.
+  - rewrite inj_nat_S in Hlt. pose proof (mt_delta _ _ _ Hmt) as Hd.
+    destruct IH as [y [Hy [Ty [Py Ry]]]]; [nra|].
+    destruct (C y Hy Py Ry) as [z [Sz Kz]]. destruct (succ_fields _ _ _ Sz) as [F1 [F2 [F3 [F4 [F5 F6]]]]].
+    assert (Tz : e_time z == inject_Z (Z.of_nat (S k)) * delta) by (rewrite F1, Qred_correct, Ty, inj_nat_S; ring).
+    exists z. split; [|split; [exact Tz|split; congruence]].
+    destruct Kz as [H|H]; [|exact H]. exfalso.
+    pose proof (HB z H F6) as Hle. rewrite Tz, inj_nat_S in Hle. lra.
+Qed.
+
+End MonRuns.
+
+(* ------------------------------------------------------------------ handler times around an observation *)
+Lemma lht_last pre : filter is_handler pre <> [] ->
+  lht (rev pre) = last (map time_of (filter is_handler pre)) 0.
+Proof.
+  induction pre as [|x pre IH] using rev_ind; [intros H; contradiction H; reflexivity|].
+  intros Hne. rewrite rev_app_distr. cbn [rev app]. rewrite filter_app, map_app. cbn [filter].
+  destruct x; cbn [is_handler lht map app time_of]; try (rewrite app_nil_r; apply IH; rewrite filter_app in Hne; cbn in Hne; rewrite app_nil_r in Hne; exact Hne).
+  rewrite last_last. reflexivity.
+Qed.
+
+Lemma sorted_app_last l1 l2 : StronglySorted Qle (l1 ++ l2) -> l1 <> [] ->
+  (forall a, In a l1 -> a <= last l1 0) /\ (forall b, In b l2 -> last l1 0 <= b).
+Proof.
+  intros Hs Hne. destruct (exists_last Hne) as [l1' [m ->]]. rewrite last_last. rewrite <- app_assoc in Hs. cbn in Hs. clear Hne. split.
+  - intros a Ha. apply in_app_or in Ha. destruct Ha as [Ha|[<-|[]]]; [|apply Qle_refl].
+    induction l1' as [|x l IH]; [destruct Ha|]. cbn in Hs. inversion Hs as [|? ? Hs' Hf]; subst.
+    destruct Ha as [<-|Ha]; [|apply IH; assumption]. rewrite Forall_forall in Hf. apply Hf. apply in_or_app. right. left. reflexivity.
+  - intros b Hb. induction l1' as [|x l IH]; cbn in Hs; inversion Hs as [|? ? Hs' Hf]; subst; [|apply IH; assumption].
+    rewrite Forall_forall in Hf. apply Hf, Hb.
+Qed.
+
+Lemma obs_value o pre tau sz post :
+  StronglySorted Qle (map time_of (filter is_handler o)) -> o = pre ++ OObserve tau sz :: post ->
+  tau = lht (rev pre) -> filter is_handler pre <> [] ->
+  (forall k t c e m, In (OHandler k t c e m) pre -> t <= tau) /\
+  (forall k t c e m, In (OHandler k t c e m) post -> tau <= t).
+Proof.
+  intros Hs -> Ht Hne. rewrite filter_app, map_app in Hs. cbn [filter is_handler] in Hs.
+  rewrite (lht_last pre Hne) in Ht.
+  assert (Hne' : map time_of (filter is_handler pre) <> []) by (destruct (filter is_handler pre); [contradiction Hne; reflexivity|discriminate]).
+  destruct (sorted_app_last _ _ Hs Hne') as [A B]. rewrite <- Ht in A, B. split.
+  - intros k t c e m Hi. apply A. apply (in_map time_of _ (OHandler k t c e m)). apply filter_In. auto.
+  - intros k t c e m Hi. apply B. apply (in_map time_of _ (OHandler k t c e m)). apply filter_In. auto.
+Qed.
+
+(* ------------------------------------------------------------------ assembled statements on r_out *)
+Lemma rev_three {A} (a b : list A) x y z : rev (a ++ x :: y :: z :: b) = rev b ++ z :: y :: x :: rev a.
+Proof. rewrite rev_app_distr. cbn. rewrite <- !app_assoc. reflexivity. Qed.
+
+Section Final.
+Context {W : Type}.
+Variable tb : table W.
+Variables (pf fuel : nat).
+
+Lemma obs_record_stoch rs ls ds pre t sz post :
+  r_out (stoch_run tb pf fuel rs ls ds) = pre ++ OObserve t sz :: post ->
+  t = lht (rev pre) /\ length sz = length (t_loci tb).
+Proof.
+  rewrite (proj1 (stoch_fields tb pf fuel rs ls ds)).
+  exact (obs_record_fwd _ _ pre t sz post (proj1 (JK_stoch_run tb pf fuel rs ls ds))).
+Qed.
+
+Lemma obs_record_sync rs ds pre t sz post :
+  r_out (sync_run tb pf fuel rs ds) = pre ++ OObserve t sz :: post ->
+  t = lht (rev pre) /\ length sz = length (t_loci tb).
+Proof.
+  rewrite (proj1 (sync_fields tb pf fuel rs ds)).
+  exact (obs_record_fwd _ _ pre t sz post (proj1 (JK_sync_run tb pf fuel rs ds))).
+Qed.
+
+Lemma handlers_sorted_stoch rs ls ds : nonneg_tb tb -> Forall (Qle 0) ls ->
+  r_stuck (stoch_run tb pf fuel rs ls ds) = false ->
+  StronglySorted Qle (map time_of (filter is_handler (r_out (stoch_run tb pf fuel rs ls ds)))).
+Proof.
+  intros Hnn Hl Hs. apply handler_times_sorted.
+  rewrite (proj1 (stoch_fields tb pf fuel rs ls ds)), obs_times_rev.
+  exact (proj1 (desc_rev _ _ (t_desc _ _ _ _ (stoch_tinv tb pf fuel rs ls ds Hnn Hl Hs)))).
+Qed.
+
+Lemma handlers_sorted_sync rs ds : r_stuck (sync_run tb pf fuel rs ds) = false ->
+  StronglySorted Qle (map time_of (filter is_handler (r_out (sync_run tb pf fuel rs ds)))).
+Proof.
+  intros Hs. apply handler_times_sorted.
+  rewrite (proj1 (sync_fields tb pf fuel rs ds)), obs_times_rev.
+  destruct (sync_tinv tb pf fuel rs ds Hs) as [L [_ T]]. exact (proj1 (desc_rev _ _ (t_desc _ _ _ _ T))).
+Qed.
+
+Lemma obs_value_stoch rs ls ds pre tau sz post : nonneg_tb tb -> Forall (Qle 0) ls ->
+  r_stuck (stoch_run tb pf fuel rs ls ds) = false ->
+  r_out (stoch_run tb pf fuel rs ls ds) = pre ++ OObserve tau sz :: post -> filter is_handler pre <> [] ->
+  (forall k t c e m, In (OHandler k t c e m) pre -> t <= tau) /\
+  (forall k t c e m, In (OHandler k t c e m) post -> tau <= t).
+Proof.
+  intros Hnn Hl Hs E Hne.
+  exact (obs_value _ pre tau sz post (handlers_sorted_stoch rs ls ds Hnn Hl Hs) E
+           (proj1 (obs_record_stoch rs ls ds pre tau sz post E)) Hne).
+Qed.
+
+Lemma obs_value_sync rs ds pre tau sz post :
+  r_stuck (sync_run tb pf fuel rs ds) = false ->
+  r_out (sync_run tb pf fuel rs ds) = pre ++ OObserve tau sz :: post -> filter is_handler pre <> [] ->
+  (forall k t c e m, In (OHandler k t c e m) pre -> t <= tau) /\
+  (forall k t c e m, In (OHandler k t c e m) post -> tau <= t).
+Proof.
+  intros Hs E Hne.
+  exact (obs_value _ pre tau sz post (handlers_sorted_sync rs ds Hs) E
+           (proj1 (obs_record_sync rs ds pre tau sz post E)) Hne).
+Qed.
+
+Variables (delta : Q) (kobs : nat).
+Hypothesis Hmt : monitor_tb tb delta kobs.
+
+Lemma PM_records (s : st W) lg y : PM delta kobs s lg -> In y lg -> e_prog y = kobs -> e_rep y = Some delta ->
+  exists sz pre post, rev (out s) = pre ++ hrec y :: OObserve (e_time y) sz :: trec y :: post.
+Proof.
+  intros P Hy Hp Hr. destruct (pm_rec _ _ _ _ P y Hy Hp Hr) as [sz [a [b E]]].
+  exists sz, (rev b), (rev a). rewrite E. apply rev_three.
+Qed.
+
+Lemma obs_times_stoch rs ls ds : nonneg_tb tb -> Forall (Qle 0) ls ->
+  let r := stoch_run tb pf fuel rs ls ds in
+  r_stuck r = false ->
+  forall k : nat, inject_Z (Z.of_nat k) * delta < r_time r ->
+  exists y sz pre post, In y (stoch_fired tb pf fuel rs ls ds) /\
+    e_time y == inject_Z (Z.of_nat k) * delta /\ e_prog y = kobs /\
+    r_out r = pre ++ hrec y :: OObserve (e_time y) sz :: trec y :: post /\ length sz = length (t_loci tb).
+Proof.
+  intros Hnn Hl. cbv zeta. intros Hs k Hk.
+  pose proof (PM_stoch_run tb delta kobs Hmt pf fuel rs ls ds) as P.
+  destruct (PM_chain tb delta kobs Hmt _ _ _ P (t_live _ _ _ _ (stoch_tinv tb pf fuel rs ls ds Hnn Hl Hs)) k Hk)
+    as [y [Hy [Ty [Py Ry]]]].
+  destruct (PM_records _ _ y P Hy Py Ry) as [sz [pre [post E]]].
+  rewrite <- (proj1 (stoch_fields tb pf fuel rs ls ds)) in E.
+  exists y, sz, pre, post. split; [exact Hy|split; [exact Ty|split; [exact Py|split; [exact E|]]]].
+  apply (obs_record_stoch rs ls ds (pre ++ [hrec y]) (e_time y) sz (trec y :: post)).
+  rewrite E, <- app_assoc. reflexivity.
+Qed.
+
+Lemma obs_times_sync rs ds :
+  let r := sync_run tb pf fuel rs ds in
+  r_stuck r = false ->
+  forall k : nat, inject_Z (Z.of_nat k) * delta + 1 < r_time r ->
+  exists y sz pre post, In y (sync_fired tb pf fuel rs ds) /\
+    e_time y == inject_Z (Z.of_nat k) * delta /\ e_prog y = kobs /\
+    r_out r = pre ++ hrec y :: OObserve (e_time y) sz :: trec y :: post /\ length sz = length (t_loci tb).
+Proof.
+  cbv zeta. intros Hs k Hk.
+  pose proof (PM_sync_run tb delta kobs Hmt pf fuel rs ds) as P.
+  destruct (sync_tinv tb pf fuel rs ds Hs) as [L [HL T]].
+  assert (Hk' : inject_Z (Z.of_nat k) * delta < L) by (rewrite <- HL in Hk; lra).
+  destruct (PM_chain tb delta kobs Hmt _ _ _ P (t_live _ _ _ _ T) k Hk') as [y [Hy [Ty [Py Ry]]]].
+  destruct (PM_records _ _ y P Hy Py Ry) as [sz [pre [post E]]].
+  rewrite <- (proj1 (sync_fields tb pf fuel rs ds)) in E.
+  exists y, sz, pre, post. split; [exact Hy|split; [exact Ty|split; [exact Py|split; [exact E|]]]].
+  apply (obs_record_sync rs ds (pre ++ [hrec y]) (e_time y) sz (trec y :: post)).
+  rewrite E, <- app_assoc. reflexivity.
+Qed.
+
+(* the monitor's pending entry is live and its id was never handed to user code: no AUnpost can hit it *)
+Lemma monitor_safe_stoch rs ls ds x :
+  In x (queue (r_final (stoch_run tb pf fuel rs ls ds))) -> e_prog x = kobs ->
+  e_live x = true /\ ~ In (e_id x) (ids (r_final (stoch_run tb pf fuel rs ls ds))).
+Proof. exact (proj2 (proj2 (pm_mi _ _ _ _ (PM_stoch_run tb delta kobs Hmt pf fuel rs ls ds))) x). Qed.
+
+Lemma monitor_safe_sync rs ds x :
+  In x (queue (r_final (sync_run tb pf fuel rs ds))) -> e_prog x = kobs ->
+  e_live x = true /\ ~ In (e_id x) (ids (r_final (sync_run tb pf fuel rs ds))).
+Proof. exact (proj2 (proj2 (pm_mi _ _ _ _ (PM_sync_run tb delta kobs Hmt pf fuel rs ds))) x). Qed.
+
+End Final.
+
+(* ------------------------------------------------------------------ only chain times are observed by the monitor *)
+(* when nobody else posts the observe program at all, every entry running it, hence every posted
+   handler call of it, has a time of the form k * delta *)
+Definition noposts (kobs : nat) (a : action) : Prop :=
+  match a with APost _ k | APostOn _ _ k | APostRep _ _ k => k <> kobs | _ => True end.
+
+(* newest first: the most recent handler record *)
+Fixpoint lhr (o : list obs) : option obs :=
+  match o with
+  | [] => None
+  | OHandler k t c e m :: _ => Some (OHandler k t c e m)
+  | _ :: o' => lhr o'
+  end.
+
+Lemma lhr_lht o k t c e m : lhr o = Some (OHandler k t c e m) -> lht o = t /\ In (OHandler k t c e m) o.
+Proof.
+  induction o as [|x o IH]; [discriminate|]. destruct x; cbn; try (intros H; destruct (IH H); auto).
+  intros [= -> -> -> -> ->]. auto.
+Qed.
+
+Section Only.
+Context {W : Type}.
+Implicit Types s : st W.
+Variable tb : table W.
+Variable delta : Q.
+Variable kobs : nat.
+
+Definition chain (t : Q) : Prop := exists k : nat, t == inject_Z (Z.of_nat k) * delta.
+
+Record monitor_only : Prop := {
+  mo_delta : 0 < delta;
+  mo_procs : exists pre mp pst, t_procs tb = pre ++ mp :: pst /\ p_setup mp = [APostRep 0 delta kobs] /\
+             Forall (fun p => Forall (noposts kobs) (p_setup p)) (pre ++ pst);
+  mo_progs : forall k t e l w, Forall (noposts kobs) (snd (prog_of tb k t e l w)) }.
+
+Definition QC s : Prop :=
+  (forall x, In x (queue s) -> e_prog x = kobs -> e_rep x = Some delta /\ chain (e_time x)) /\
+  (forall t c e, In (OHandler kobs t c e None) (out s) -> chain t).
+
+Lemma QC_emit x s : (forall t c e, x <> OHandler kobs t c e None) -> QC s -> QC (emit x s).
+Proof.
+  intros Hx [A B]. split; [exact A|]. cbn. intros t c e [E|H]; [exfalso; eapply Hx; exact E|eauto].
+Qed.
+
+Lemma QC_post t p e prog rep s : (prog = kobs -> rep = Some delta /\ chain t) -> QC s ->
+  QC (snd (post t p e prog rep s)).
+Proof.
+  intros Hn [A B]. unfold post. destruct (Qltb t (clock s)); cbn [snd]; [split; assumption|].
+  split; [|exact B]. cbn. intros x [<-|Hx] Hp; [cbn in *; auto|auto].
+Qed.
+
+Lemma QC_same s s' : queue s' = queue s -> out s' = out s -> QC s -> QC s'.
+Proof. unfold QC. intros -> ->. auto. Qed.
+
+Lemma QC_do_action p t e a s : noposts kobs a -> QC s -> QC (do_action p t e a s).
+Proof.
+  intros Ha HQ. destruct a; cbn [noposts] in Ha.
+  - cbn [do_action]. pose proof (QC_post (Qred (t + dt)) p e prog None s (fun E => False_ind _ (Ha E)) HQ) as H.
+    destruct (post (Qred (t + dt)) p e prog None s) as [[i|] s']; cbn [snd] in H;
+      (apply QC_emit; [intros; discriminate|]); [eapply QC_same; [| |exact H]; reflexivity|exact H].
+  - cbn [do_action]. pose proof (QC_post (Qred (t + dt)) p x prog None s (fun E => False_ind _ (Ha E)) HQ) as H.
+    destruct (post (Qred (t + dt)) p x prog None s) as [[i|] s']; cbn [snd] in H;
+      (apply QC_emit; [intros; discriminate|]); [eapply QC_same; [| |exact H]; reflexivity|exact H].
+  - cbn [do_action]. pose proof (QC_post (Qred (t + dt0)) p e prog (Some ddt) s (fun E => False_ind _ (Ha E)) HQ) as H.
+    destruct (post (Qred (t + dt0)) p e prog (Some ddt) s) as [[i|] s']; cbn [snd] in H;
+      (apply QC_emit; [intros; discriminate|exact H]).
+  - cbn [do_action]. unfold post. rewrite Qred_pred_lt. apply QC_emit; [intros; discriminate|exact HQ].
+  - destruct (do_unpost_cases p t e k fatal s) as [E|[i [Hin [[x E]|E]]]]; rewrite E; [exact HQ| |].
+    + apply QC_emit; [intros; discriminate|]. destruct HQ as [A B]. split; [|exact B]. cbn.
+      intros y Hy Hp. apply kill_in in Hy. destruct Hy as [[Hy _]|[z [Hz [_ ->]]]]; [auto|]. cbn in *. auto.
+    + apply QC_emit; [intros; discriminate|exact HQ].
+  - destruct (do_query_cases p t e k s) as [E|[i [r E]]]; rewrite E; [exact HQ|].
+    apply QC_emit; [intros; discriminate|exact HQ].
+  - exact HQ.
+  - exact HQ.
+  - exact HQ.
+  - exact HQ.
+  - cbn [do_action]. apply QC_emit; [intros; discriminate|exact HQ].
+Qed.
+
+Lemma QC_run_actions p t e acts s : Forall (noposts kobs) acts -> QC s -> QC (run_actions p t e acts s).
+Proof.
+  unfold run_actions. revert s. induction acts as [|a acts IH]; intros s Hf HQ; cbn [fold_left]; [exact HQ|].
+  inversion Hf; subst. apply IH; [assumption|]. apply QC_do_action; assumption.
+Qed.
+
+Hypothesis Hmo : monitor_only.
+
+Lemma QC_run_prog p k t e s : QC s -> QC (run_prog tb p k t e s).
+Proof.
+  intros HQ. unfold run_prog. pose proof (mo_progs Hmo k t e (loci s) (world s)) as Hf.
+  destruct (prog_of tb k t e (loci s) (world s)) as [w acts]. cbn [snd] in Hf.
+  apply QC_run_actions; [exact Hf|exact HQ].
+Qed.
+
+Lemma chain_succ t : chain t -> chain (Qred (t + delta)).
+Proof. intros [k Hk]. exists (S k). rewrite Qred_correct, Hk, inj_nat_S. ring. Qed.
+
+(* firing x: the handler record is a chain time when x runs the observe program *)
+Lemma QC_fire x s : QC s -> (e_prog x = kobs -> e_rep x = Some delta /\ chain (e_time x)) -> QC (fire tb x s).
+Proof.
+  intros HQ Hx. unfold fire.
+  assert (H1 : QC (emit (OHandler (e_prog x) (e_time x) (clock s) (e_elem x) None) s)).
+  { destruct HQ as [A B]. split; [exact A|]. cbn. intros t c e [E|H]; [|eauto].
+    injection E as E1 E2 _ _. subst t. apply Hx, E1. }
+  pose proof (QC_run_prog (e_proc x) (e_prog x) (e_time x) (e_elem x) _ H1) as H2.
+  destruct (e_rep x) as [ddt|] eqn:Er; [|exact H2].
+  assert (Hn : e_prog x = kobs -> Some ddt = Some delta /\ chain (Qred (e_time x + ddt))).
+  { intros E. destruct (Hx E) as [R C]. injection R as ->. split; [reflexivity|apply chain_succ, C]. }
+  pose proof (QC_post (Qred (e_time x + ddt)) (e_proc x) (e_elem x) (e_prog x) (Some ddt) _ Hn H2) as H3.
+  destruct (post _ _ _ _ _ _) as [[i|] s3]; cbn [snd] in H3; [exact H3|apply QC_emit; [intros; discriminate|exact H3]].
+Qed.
+
+Lemma QC_pend_step h s0 : In h (queue s0) -> QC s0 -> QC (pend_step tb h s0).
+Proof.
+  intros Hh HQ. unfold pend_step, trec. apply QC_emit; [intros; discriminate|].
+  apply QC_fire; [|intros Hp; apply (proj1 HQ h Hh Hp)].
+  destruct HQ as [A B]. split; [|exact B]. cbn. intros x Hx. apply A. eapply remove_id_incl; exact Hx.
+Qed.
+
+Lemma QC_fire_event x t e s : QC s -> QC (fire_event tb x t e s).
+Proof.
+  intros HQ. destruct x as [[pi j] ev]. unfold fire_event. apply QC_emit; [intros; discriminate|].
+  apply QC_run_prog. apply QC_emit; [intros; discriminate|exact HQ].
+Qed.
+
+Lemma QC_setup_fold (ps : list proc) : Forall (fun p => Forall (noposts kobs) (p_setup p)) ps ->
+  forall acc, QC (fst acc) -> QC (fst (fold_left setup_step ps acc)).
+Proof.
+  induction 1 as [|p ps Hp _ IH]; intros acc HQ; cbn [fold_left]; [exact HQ|].
+  apply IH. unfold setup_step. cbn [fst]. apply QC_run_actions; assumption.
+Qed.
+
+Lemma QC_setup rs ls ds : QC (setup_state tb rs ls ds).
+Proof.
+  destruct (mo_procs Hmo) as [pre [mp [pst [Ep [Es Hf]]]]].
+  apply Forall_app in Hf. destruct Hf as [Hpre Hpst].
+  unfold setup_state. fold (init_state tb rs ls ds). change (fun (acc : st W * nat) p => _) with (@setup_step W).
+  rewrite Ep, fold_left_app. cbn [fold_left]. apply (QC_setup_fold pst Hpst).
+  assert (A : QC (fst (fold_left setup_step pre (init_state tb rs ls ds, 0%nat))))
+    by (apply (QC_setup_fold pre Hpre); split; [intros ? []|intros ? ? ? []]).
+  set (a1 := fold_left setup_step pre (init_state tb rs ls ds, 0%nat)) in *.
+  unfold setup_step. cbn [fst]. rewrite Es. unfold run_actions. cbn [fold_left do_action].
+  pose proof (QC_post (Qred (0 + 0)) (snd a1) (EN 0) kobs (Some delta) (fst a1)
+     (fun _ => conj eq_refl (ex_intro _ 0%nat (eq_refl : Qred (0 + 0) == inject_Z (Z.of_nat 0) * delta))) A) as H.
+  destruct (post _ _ _ _ _ _) as [[i|] s']; cbn [snd] in H; (apply QC_emit; [intros; discriminate|exact H]).
+Qed.
+
+Lemma QC_discard s : QC s -> QC (discard s).
+Proof.
+  intros [A B]. split; [|exact B]. unfold discard. cbn. intros x Hx. apply A. eapply discard_dead_incl; exact Hx.
+Qed.
+
+Lemma QC_osame s s' : osame s s' -> QC s -> QC s'.
+Proof. intros [Hc _]. unfold core_of in Hc. injection Hc as _ _ Eq Eo. apply QC_same; assumption. Qed.
+
+Let PQ := fun s (_ : list entry) => QC s.
+
+Lemma QC_stoch_run pf fuel rs ls ds : QC (r_final (stoch_run tb pf fuel rs ls ds)).
+Proof.
+  rewrite stoch_run_eq. destruct (stoch_runL tb pf fuel rs ls ds) as [[[t ev] s] l] eqn:E. cbn.
+  refine (lift_stoch_loopL tb PQ _ _ _ _ _ _ pf fuel 0 0 _ [] t ev s l (QC_setup rs ls ds) E); unfold PQ.
+  - intros s0 _ H. exact H.
+  - intros s0 s1 _. apply QC_osame.
+  - intros s0 _. apply QC_discard.
+  - intros c s0 _ H. exact H.
+  - intros h s0 _ Hh _. apply QC_pend_step, head_in, Hh.
+  - intros x t0 e s0 _ _. apply QC_fire_event.
+Qed.
+
+Lemma QC_sync_run pf fuel rs ds : QC (r_final (sync_run tb pf fuel rs ds)).
+Proof.
+  rewrite sync_run_eq. destruct (sync_runL tb pf fuel rs ds) as [[[[t ev] k] s] l] eqn:E. cbn.
+  refine (lift_sync_loopL tb PQ _ _ _ _ _ _ pf fuel 1 0 0 _ [] t ev k s l (QC_setup rs [] ds) E); unfold PQ.
+  - intros s0 _ H. exact H.
+  - intros s0 s1 _. apply QC_osame.
+  - intros s0 _. apply QC_discard.
+  - intros c s0 _ H. exact H.
+  - intros h s0 _ Hh _. apply QC_pend_step, head_in, Hh.
+  - intros x t0 e s0 _ _. apply QC_fire_event.
+Qed.
+
+(* an observation made inside a posted call of the observe program is at a chain time *)
+Lemma obs_chain_stoch pf fuel rs ls ds pre t sz post t' c e :
+  r_out (stoch_run tb pf fuel rs ls ds) = pre ++ OObserve t sz :: post ->
+  lhr (rev pre) = Some (OHandler kobs t' c e None) -> chain t.
+Proof.
+  intros E Hl. destruct (lhr_lht _ _ _ _ _ _ Hl) as [A B].
+  rewrite (proj1 (obs_record_stoch tb pf fuel rs ls ds pre t sz post E)), A.
+  apply (proj2 (QC_stoch_run pf fuel rs ls ds) t' c e).
+  apply in_rev. rewrite <- (proj1 (stoch_fields tb pf fuel rs ls ds)), E.
+  apply in_or_app. left. apply in_rev. exact B.
+Qed.
+
+Lemma obs_chain_sync pf fuel rs ds pre t sz post t' c e :
+  r_out (sync_run tb pf fuel rs ds) = pre ++ OObserve t sz :: post ->
+  lhr (rev pre) = Some (OHandler kobs t' c e None) -> chain t.
+Proof.
+  intros E Hl. destruct (lhr_lht _ _ _ _ _ _ Hl) as [A B].
+  rewrite (proj1 (obs_record_sync tb pf fuel rs ds pre t sz post E)), A.
+  apply (proj2 (QC_sync_run pf fuel rs ds) t' c e).
+  apply in_rev. rewrite <- (proj1 (sync_fields tb pf fuel rs ds)), E.
+  apply in_or_app. left. apply in_rev. exact B.
+Qed.
+
+End Only.
